@@ -15,10 +15,10 @@ EXTENDS SplayTree, Json, IOUtils
 
 Runs == ndJsonDeserialize(IOEnv.TRACEFILE)
 
-VARIABLES r, l, tree, bad, rem, drifted
-vars == <<r, l, tree, bad, rem, drifted>>
+VARIABLES r, l, tree, bad, rem, drifted, ndrift
+vars == <<r, l, tree, bad, rem, drifted, ndrift>>
 
-Init == r \in 1..Len(Runs) /\ l = 1 /\ tree = Nil /\ bad = "no" /\ rem = {} /\ drifted = FALSE
+Init == r \in 1..Len(Runs) /\ l = 1 /\ tree = Nil /\ bad = "no" /\ rem = {} /\ drifted = FALSE /\ ndrift = 0
 
 \* nested JSON arrays [k,v,l,r] / [] are exactly the model's trees
 Ev == Runs[r].events[l]
@@ -75,6 +75,7 @@ Step ==
                   /\ rem' = IterNthEff(rem, e.k, back) /\ tree' = tree
   /\ l' = l + 1 /\ r' = r
   /\ drifted' = (drifted \/ bad' = "mechanism")
+  /\ ndrift' = IF bad' = "mechanism" /\ ndrift < 2 THEN ndrift + 1 ELSE ndrift
   /\ (bad' = "contract" \/ (bad' = "mechanism" /\ ~drifted)) => PrintT(<<"SPLAYFAIL", bad', Runs[r].id, l>>)
 
 Done == (l > Len(Runs[r].events) \/ bad = "contract") /\ UNCHANGED vars
@@ -82,6 +83,8 @@ Next == Step \/ Done
 Spec == Init /\ [][Next]_vars
 
 C17_Contract == bad # "contract"
-M_NoDrift == ~drifted
+\* violated in ONE state per drifting history (its first drift), so that a refactoring that rearranges every tree
+\* costs one report per history and not one per event
+M_NoDrift == ~(bad = "mechanism" /\ ndrift = 1)
 C17_StateIsBST == IsBST(tree, -1000000, 1000000)
 =============================================================================
